@@ -216,12 +216,6 @@ pub fn sweep<T: Term>(t: &T, obs: &mut Obs, depth: usize) -> SV {
         };
         sv.dt = dt.clone().flatten();
         sv.lang = lang.clone().flatten();
-        if !sv.panicked && depth < 8 {
-            // what downstream code does with a yielded term, beyond the accessors: compare it, hash it,
-            // copy it, walk it.  Only for terms whose accessors all returned (a panic above would repeat here).
-            obs.extra_swept += 1;
-            extra_sweep(t, obs);
-        }
         if k == TermKind::Triple && depth < 300 {
             // constituents, recursively
             let r = catch(AssertUnwindSafe(|| {
@@ -239,6 +233,13 @@ pub fn sweep<T: Term>(t: &T, obs: &mut Obs, depth: usize) -> SV {
                 Ok(fs) => fs.into_iter().for_each(|f| obs.fail(f)),
                 Err(_) => obs.fail("panic.triple".into()),
             }
+        }
+        if obs.fails.is_empty() && depth < 8 {
+            // what downstream code does with a yielded term, beyond the accessors: compare it, hash it,
+            // copy it, walk it.  Only while nothing has failed yet (for a quoted triple: none of its
+            // constituents either) — these methods call the accessors, a failure above would only repeat.
+            obs.extra_swept += 1;
+            extra_sweep(t, obs);
         }
     }
     sv
@@ -274,6 +275,47 @@ fn extra_sweep<T: Term>(t: &T, obs: &mut Obs) {
         if nc < na || na == 0 || (!is_t && (nc != 1 || na != 1)) {
             obs.fail("inconsistent.constituents".into());
         }
+    }
+    // against terms of every other kind (a comparison must answer, not assume the other side's kind)
+    {
+        use sophia_api::ns::xsd;
+        use sophia_api::term::{BnodeId, LanguageTag, VarName};
+        let iri = Iri::new_unchecked("x-c08:other");
+        let bn = BnodeId::new_unchecked("x-c08-other");
+        let var = VarName::new_unchecked("x_c08_other");
+        let lit = "x-c08-other";
+        let typed = "x-c08-other" * xsd::integer;
+        let tagged = "x-c08-other" * LanguageTag::new_unchecked("x-c08");
+        let triple: SimpleTerm = SimpleTerm::Triple(Box::new([iri.into_term(), iri.into_term(), lit.into_term()]));
+        let r = acc("eq_other", obs, || {
+            let mut n = 0;
+            n += Term::eq(t, iri) as usize;
+            n += Term::eq(t, bn) as usize;
+            n += Term::eq(t, var) as usize;
+            n += Term::eq(t, lit) as usize;
+            n += Term::eq(t, typed.borrow_term()) as usize;
+            n += Term::eq(t, tagged.borrow_term()) as usize;
+            n += Term::eq(t, triple.borrow_term()) as usize;
+            n += Term::eq(&iri, t.borrow_term()) as usize;
+            n += Term::eq(&lit, t.borrow_term()) as usize;
+            n += Term::eq(&triple, t.borrow_term()) as usize;
+            n
+        });
+        if let Some(n) = r {
+            if n != 0 {
+                obs.fail("inconsistent.eq_other".into());
+            }
+        }
+        acc("cmp_other", obs, || {
+            let _ = Term::cmp(t, iri);
+            let _ = Term::cmp(t, bn);
+            let _ = Term::cmp(t, var);
+            let _ = Term::cmp(t, lit);
+            let _ = Term::cmp(t, typed.borrow_term());
+            let _ = Term::cmp(t, tagged.borrow_term());
+            let _ = Term::cmp(t, triple.borrow_term());
+            let _ = Term::cmp(&triple, t.borrow_term());
+        });
     }
     let flags = [t.is_iri(), t.is_blank_node(), t.is_literal(), t.is_variable(), t.is_triple()];
     if flags.iter().filter(|x| **x).count() != 1 {
@@ -389,6 +431,41 @@ pub fn is_strict(syn: &str) -> bool {
     !matches!(syn, "gnq" | "gtrig")
 }
 
+/// `… ident: "_:<label>" …` of the `Debug` text of a json-ld blank node (Debug escapes undone)
+fn debug_label(dbg: &str) -> Option<String> {
+    let i = dbg.find("ident: \"_:")?;
+    let rest = &dbg[i + 10..];
+    let mut out = String::new();
+    let mut it = rest.chars().peekable();
+    while let Some(c) = it.next() {
+        match c {
+            '"' => return Some(out),
+            '\\' => match it.next()? {
+                'u' => {
+                    if it.next()? != '{' {
+                        return None;
+                    }
+                    let mut h = String::new();
+                    for d in it.by_ref() {
+                        if d == '}' {
+                            break;
+                        }
+                        h.push(d);
+                    }
+                    out.push(char::from_u32(u32::from_str_radix(&h, 16).ok()?)?);
+                }
+                'n' => out.push('\n'),
+                't' => out.push('\t'),
+                'r' => out.push('\r'),
+                '0' => out.push('\0'),
+                e => out.push(e),
+            },
+            c => out.push(c),
+        }
+    }
+    None
+}
+
 /// JSON-LD parser configurations: `jsonld` is `JsonLdParser::new()`, `jsonld@<opt>` sets one non-default option
 pub const JSONLD_VARIANTS: &[&str] = &[
     "jsonld@i18n", "jsonld@compound", "jsonld@gen", "jsonld@ordered", "jsonld@base", "jsonld@ctx", "jsonld@v10", "jsonld@strict",
@@ -459,6 +536,19 @@ fn run_on<B: std::io::BufRead>(syn: &str, data: B, len: usize, base: Option<&str
                 let mut svs: Vec<SV> = spo.iter().map(|t| sweep(t, obs, 0)).collect();
                 if let Some(g) = &g {
                     svs.push(sweep(g, obs, 0));
+                }
+                // json-ld terms are opaque; the label of a blank node whose accessor panicked is read off `Debug`
+                for (sv, t) in svs.iter_mut().zip(spo.iter().chain(g.iter())) {
+                    if sv.kind == 'b' {
+                        if let Some(l) = debug_label(&format!("{:?}", t)) {
+                            if BnodeId::new(l.as_str()).is_err() {
+                                obs.note_bad('b', &l);
+                            }
+                            if sv.text.is_none() {
+                                sv.text = Some(l);
+                            }
+                        }
+                    }
                 }
                 if obs.keep && obs.sop.len() < 8 {
                     obs.sop.push(svs);
